@@ -209,3 +209,51 @@ static void c02_vec_init(char *self) { char **v = (char**)self; char **nb = mall
   v[0] = (char*)nb; v[1] = (char*)nb; v[2] = (char*)(nb + C02_VECCAP); }
 void _ZNSt6vectorI7QStringSaIS0_EEC2Ev(char *self) { c02_vec_init(self); }
 void _ZNSt6vectorI7QStringSaIS0_EEC1Ev(char *self) { c02_vec_init(self); }
+/* ---- QDateTime (libQt5Core; Qt's date-time parsing/formatting is trusted, DESIGN 2.5): the 8-byte object holds an opaque instant (0 = null/invalid).
+   Text form = abstract number string carrying the instant (fromString(toString(t)) == t by contract); any other text parses to an arbitrary instant
+   or to an invalid date-time. toUTC()/toTimeSpec keep the instant. ---- */
+#define DTW(p) (*(uint64_t*)(p))
+void _ZN9QDateTimeC1Ev(char *self) { DTW(self) = 0; }
+void _ZN9QDateTimeC2Ev(char *self) { DTW(self) = 0; }
+void _ZN9QDateTimeC1ERKS_(char *self, char *o) { DTW(self) = DTW(o); }
+void _ZN9QDateTimeC2ERKS_(char *self, char *o) { DTW(self) = DTW(o); }
+void _ZN9QDateTimeC1EOS_(char *self, char *o) { DTW(self) = DTW(o); }
+void _ZN9QDateTimeD1Ev(char *self) { }
+void _ZN9QDateTimeD2Ev(char *self) { }
+char* _ZN9QDateTimeaSERKS_(char *self, char *o) { DTW(self) = DTW(o); return self; }
+char* _ZN9QDateTimeaSEOS_(char *self, char *o) { DTW(self) = DTW(o); return self; }
+uint8_t _ZNK9QDateTime6isNullEv(char *self) { return DTW(self) == 0; }
+uint8_t _ZNK9QDateTime7isValidEv(char *self) { return DTW(self) != 0; }
+void _ZN9QDateTime10fromStringERK7QStringN2Qt10DateFormatE(char *ret, char *str, uint32_t fmt) { QAD *d = *(QAD**)str; uint64_t any = vp_u64();
+  if (d->f1 == 0) { DTW(ret) = 0; return; } if (d->f3 == QS_OFF && ((struct qs*)d)->isnum) { DTW(ret) = ((struct qs*)d)->mag; return; } DTW(ret) = any; }
+void _ZNK9QDateTime10toTimeSpecEN2Qt8TimeSpecE(char *ret, char *self, uint32_t spec) { DTW(ret) = DTW(self); }
+void _ZNK9QDateTime5toUTCEv(char *ret, char *self) { DTW(ret) = DTW(self); }
+uint32_t _ZNK9QDateTime4timeEv(char *self) { return (uint32_t)(DTW(self) & 0x3ffffff); }   /* QTime is one int (ms since midnight), returned in a register */
+uint32_t _ZNK5QTime4msecEv(char *self) { return *(uint32_t*)self % 1000u; }
+void _ZNK9QDateTime8toStringEN2Qt10DateFormatE(char *ret, char *self, uint32_t fmt) { if (DTW(self) == 0) { *(QAD**)ret = C02_EMPTY; return; } *(QAD**)ret = qs_number(DTW(self), 0); }
+/* ---- QXmppElement (src/base/QXmppElement.cpp, not an anchored file): class-level cut. The object keeps the DOM node it was constructed from;
+   toXml() writes the copy the real class would write: tag, xmlns only if it differs from the parent's, NON-EMPTY attributes (the real toXml uses
+   writeOptionalXmlAttribute), text, child elements (two levels below the copied element; deeper is a model limit). ---- */
+#define XE(p) (*(struct dnode**)(p))
+void _ZN12QXmppElementC1ERK11QDomElement(char *self, char *el) { XE(self) = DN(el); }
+void _ZN12QXmppElementC2ERK11QDomElement(char *self, char *el) { XE(self) = DN(el); }
+void _ZN12QXmppElementC1ERKS_(char *self, char *o) { XE(self) = XE(o); }
+void _ZN12QXmppElementC2ERKS_(char *self, char *o) { XE(self) = XE(o); }
+void _ZN12QXmppElementC1Ev(char *self) { XE(self) = 0; }
+void _ZN12QXmppElementC2Ev(char *self) { XE(self) = 0; }
+void _ZN12QXmppElementD1Ev(char *self) { }
+void _ZN12QXmppElementD2Ev(char *self) { }
+char* _ZN12QXmppElementaSERKS_(char *self, char *o) { XE(self) = XE(o); return self; }
+static struct dnode *c02_emit(struct wr *x, struct dnode *n, QAD *srcParentNs) {
+  QAD *ns = (n->ns->f1 != 0 && !d_eq(n->ns, srcParentNs)) ? n->ns : (QAD*)0;
+  struct dnode *c = wr_open(x, n->tag, ns);
+  for (uint32_t s = 0; s < DOM_MAXATTR; s++) { if (n->has[s]) { if (n->av[s]->f1 != 0) { c->has[s] = 1; c->nattr++; c->av[s] = n->av[s]; } } }
+  if (n->text->f1 != 0) c->text = n->text;
+  return c; }
+void _ZNK12QXmppElement5toXmlEP16QXmlStreamWriter(char *self, char *w) { struct dnode *n = XE(self); if (!n) return; if (n->tag->f1 == 0) return;
+  struct wr *x = WR(w); struct dnode *p = n->parent; QAD *pns = C02_EMPTY; if (p) pns = p->ns;
+  c02_emit(x, n, pns);
+  for (uint32_t i = 0; i < DOM_MAXCH; i++) { if (i >= n->nch) break; struct dnode *c = n->ch[i]; c02_emit(x, c, n->ns);
+    for (uint32_t j = 0; j < DOM_MAXCH; j++) { if (j >= c->nch) break; struct dnode *g = c->ch[j]; ASSERT(g->nch == 0, "C02 env: QXmppElement copy deeper than 3 levels"); c02_emit(x, g, c->ns); x->depth--; }
+    x->depth--; }
+  x->depth--; }
